@@ -334,13 +334,6 @@ Proof.
   - apply buffer_sorted_start; [exact Hb| |exact S]. apply Forall_forall. intros x Hx. apply (H x Hx).
 Qed.
 
-Lemma inter_has_sel (es : list expr) : es <> [] ->
-  has_sel (emit_sel (map is_mask es)) (length (map (fun s : expr => (nil : list ivl)) es)).
-Proof.
-  intro Hne. rewrite map_length, <- (map_length is_mask). apply emit_sel_has.
-  destruct es; [congruence|discriminate].
-Qed.
-
 (* the stream invariant for the whole class, every reachable window *)
 Theorem fetch_ok2 env e :
   good2 env e -> forall a b, wins e a b -> sok (fetch env e a b false).
@@ -411,3 +404,217 @@ Proof.
     destruct (mw_out_wf g _ Hg0 S1 S2) as [W C]. destruct (mw_sorted g _ Hg0 S1 S2 S3) as [So _].
     repeat split; assumption.
 Qed.
+
+(* ---------- sufficient conditions for [dj2] and [buf_safe] ---------- *)
+
+Lemma dj_dj2 env s : dj env s -> dj2 env s.
+Proof. intros H a b Hw. apply H. exact (wins_wf_win s a b Hw). Qed.
+
+(* merge_within always produces a non-overlapping (indeed separated) stream *)
+Lemma dj2_mw env s g : good2 env s -> 0 <= g -> dj2 env (MergeW s g).
+Proof.
+  intros Hs Hg a b Hw. cbn [wins] in Hw. destruct Hw as [_ Hw1].
+  destruct (fetch_ok2 env s Hs a b Hw1) as (S1 & S2 & S3).
+  destruct (fetch_mergew env s g a b) as [E _]. rewrite E.
+  apply RefSpec.separatedP_disjoint. exact (proj2 (mw_sorted g _ Hg S1 S2 S3)).
+Qed.
+
+Lemma dj2_compl env s : good2 env s -> dj2 env (Compl s).
+Proof.
+  intros Hs a b Hw. pose proof (wins_wf_win _ a b Hw) as Hwin. cbn [wins] in Hw. destruct Hw as [_ Hw1].
+  destruct (fetch_ok2 env s Hs a b Hw1) as (S1 & _ & S3). rewrite fetch_compl.
+  apply RefSpec.separatedP_disjoint. exact (proj1 (proj2 (compl_sweep_spec _ a b Hwin S1 S3))).
+Qed.
+
+Lemma dj2_filt env s f : dj2 env s -> dj2 env (Filt s f).
+Proof.
+  intros Hd a b Hw. cbn [wins] in Hw. destruct Hw as [_ Hw1]. rewrite fetch_filt.
+  apply Assembly.disjoint_sorted_filter. exact (Hd a b Hw1).
+Qed.
+
+Lemma dj2_diff env s subs : good2 env s -> Forall (good2 env) subs -> dj2 env s -> dj2 env (Diff s subs).
+Proof.
+  intros Hs Hsubs Hd a b Hw. apply wins_diff in Hw as (_ & Hw1 & Hws).
+  destruct subs as [|u us]; [rewrite fetch_diff_nil; exact (Hd a b Hw1)|].
+  rewrite fetch_diff. destruct (fetch_ok2 env s Hs a b Hw1) as (S1 & _ & _).
+  apply diff_sweep_disjoint_sorted; [exact S1|exact (Hd a b Hw1)|].
+  apply merged_ok_intro; apply Forall_map_intro, Forall_forall; intros v Hv;
+    rewrite Forall_forall in Hsubs, Hws;
+    destruct (fetch_ok2 env v (Hsubs v Hv) a b (Hws v Hv)) as (V1 & _ & V3); assumption.
+Qed.
+
+(* a stored source: every stored event stays between the sentinels after the shift *)
+Lemma buf_safe_stored env evs before after :
+  Forall (shift_safe before after) evs -> buf_safe env (Stored evs) before after.
+Proof.
+  intros H a b _. rewrite fetch_stored. apply Forall_filter. apply Forall_forall. intros x Hx.
+  apply (proj1 (sl_build_in _ _)) in Hx. exact (proj1 (Forall_forall _ _) H x Hx).
+Qed.
+
+Lemma buf_safe_filt env s f before after : buf_safe env s before after -> buf_safe env (Filt s f) before after.
+Proof.
+  intros H a b Hw. cbn [wins] in Hw. destruct Hw as [_ Hw1]. rewrite fetch_filt.
+  apply Forall_filter. exact (H a b Hw1).
+Qed.
+
+(* ---------- slices ---------- *)
+
+Lemma dj2_solid env : dj2 env Solid.
+Proof. apply dj_dj2, dj_solid. Qed.
+
+Lemma good2_inter_solid env es : good2 env (Inter es) -> good2 env (Inter (es ++ [Solid])).
+Proof.
+  intro Hg. inversion Hg as [e0 Hgd| | | |es0 Hne Hall Hdj| | |]; subst.
+  - apply g2_good, good_inter_solid, Hgd.
+  - apply g2_inter.
+    + destruct es; discriminate.
+    + apply Forall_app. split; [exact Hall|]. constructor; [apply g2_good, g_solid|constructor].
+    + apply Forall_app. split; [exact Hdj|]. constructor; [apply dj2_solid|constructor].
+Qed.
+
+Lemma wins_inter_solid es a b : wins (Inter es) a b -> wins (Inter (es ++ [Solid])) a b.
+Proof.
+  intro H. apply wins_inter in H as [Hw Hs]. apply wins_inter. split; [exact Hw|].
+  apply Forall_app. split; [exact Hs|]. constructor; [|constructor]. cbn [wins]. tauto.
+Qed.
+
+Lemma good2_inter_nonempty env es : good2 env (Inter es) -> es <> [].
+Proof.
+  intro Hg. inversion Hg as [e0 Hgd| | | |es0 Hne Hall Hdj| | |]; subst; [|exact Hne].
+  inv_good Hgd. assumption.
+Qed.
+
+(* the normalised slice: stream invariant + inside the window.  The final "& solid" of
+   Timeline.__getitem__ is per-event clipping because the stream is sorted by start
+   (Clip.clip_sweep_iff through clip_sweep_masks). *)
+Theorem slice_n_ok2 env e a b :
+  good2 env e -> wins e a b -> sok (slice_n env e a b) /\ in_win_all a b (slice_n env e a b).
+Proof.
+  intros Hg Hw. pose proof (wins_wf_win _ a b Hw) as Hwin.
+  assert (Hcl : sok (fetch env (and_ e Solid) a b false) /\
+                in_win_all a b (fetch env (and_ e Solid) a b false)).
+  { destruct (and_solid_cases e) as [(es & -> & ->)| -> ].
+    - split; [apply fetch_ok2; [apply good2_inter_solid, Hg|apply wins_inter_solid, Hw]|].
+      intros x Hx. pose proof (good2_inter_nonempty env es Hg) as Hne.
+      destruct es as [|e0 es]; [congruence|].
+      cbn [app] in Hx. rewrite fetch_inter in Hx.
+      apply inter_sweep_out in Hx as (_ & _ & Hin).
+      + destruct (Hin [mkI a b Plain]) as (c & Hc & B1 & B2);
+          [|destruct Hc as [<- | []]; exact (conj B1 B2)].
+        change (e0 :: es ++ [Solid]) with ((e0 :: es) ++ [Solid]). rewrite map_app.
+        apply in_or_app. right. left. reflexivity.
+      + rewrite map_length. cbn [length]. rewrite app_length. cbn [length]. lia.
+    - rewrite fetch_clip. destruct (fetch_ok2 env e Hg a b Hw) as (S1 & S2 & S3).
+      rewrite (clip_sweep_masks _ _ a b S3).
+      destruct (clip_stream_ok a b (fetch env e a b false) Hwin) as (C1 & C2 & C3).
+      split; [|exact C3]. split; [exact C1|]. split; [exact C2|apply sorted_start_clip; exact S3]. }
+  unfold slice_n. destruct a as [x|], b as [y|]; try exact Hcl.
+  pose proof (fetch_ok2 env e Hg None None Hw) as Hs. split; [exact Hs|].
+  apply in_win_open. exact (proj1 Hs).
+Qed.
+
+(* GOAL 4c: C03 (forward) for every operator including buffer and merge_within *)
+Theorem C03_forward_wf2 env e a b :
+  good2 env e -> wins e (fst (norm_bounds a b)) (snd (norm_bounds a b)) ->
+  stream_wf (fst (norm_bounds a b)) (snd (norm_bounds a b)) false (slice env e a b false) = true.
+Proof.
+  intros Hg Hw. rewrite slice_unfold.
+  destruct (slice_n_ok2 env e _ _ Hg Hw) as ((S1 & S2 & S3) & Hin).
+  apply stream_wf_intro; assumption.
+Qed.
+
+(* the theorem of Proofs/Assembly.v is the buffer-free instance *)
+Corollary C03_forward_wf_good env e a b :
+  Assembly.good env e -> wf_win' a b ->
+  stream_wf (fst (norm_bounds a b)) (snd (norm_bounds a b)) false (slice env e a b false) = true.
+Proof.
+  intros Hg Hw. apply C03_forward_wf2; [apply g2_good, Hg|].
+  apply nobuf_wins; [eapply good_nobuf; exact Hg|exact Hw].
+Qed.
+
+(* ---------- a numeric sufficient condition for [wins]: stay [margin e] away from the
+   sentinels, where [margin] adds up the buffers along the deepest path ---------- *)
+
+Definition wide (m : Z) (a b : option Z) : Prop :=
+  wf_win a b /\ (forall z, a = Some z -> NEG_INF + m < z) /\ (forall z, b = Some z -> z + m < POS_INF).
+
+Fixpoint margin (e : expr) : Z :=
+  match e with
+  | Stored _ => 0
+  | Solid => 0
+  | Union es => fold_right (fun s m => Z.max (margin s) m) 0 es
+  | Inter es => fold_right (fun s m => Z.max (margin s) m) 0 es
+  | Diff s subs => Z.max (margin s) (fold_right (fun s m => Z.max (margin s) m) 0 subs)
+  | Compl s => margin s
+  | Filt s _ => margin s
+  | Buf s before after => margin s + Z.max (Z.max before after) 0
+  | MergeW s _ => margin s
+  end.
+
+Lemma fold_max_nonneg (f : expr -> Z) es : 0 <= fold_right (fun s m => Z.max (f s) m) 0 es.
+Proof. induction es as [|x r IH]; cbn [fold_right]; lia. Qed.
+
+Lemma fold_max_in (f : expr -> Z) es s : In s es -> f s <= fold_right (fun s m => Z.max (f s) m) 0 es.
+Proof. induction es as [|x r IH]; intros []; cbn [fold_right]; [subst; lia|specialize (IH H); lia]. Qed.
+
+Lemma margin_nonneg e : 0 <= margin e.
+Proof.
+  induction e as [evs| |es IH|es IH|s subs IHs IHsubs|s IHs|s f IHs|s x y IHs|s g IHs] using expr_ind';
+    cbn [margin]; try lia; try apply fold_max_nonneg.
+Qed.
+
+Lemma wide_weaken m m' a b : wide m a b -> m' <= m -> wide m' a b.
+Proof.
+  intros (W & A & B) H. split; [exact W|]. split; intros z E; [specialize (A z E)|specialize (B z E)]; lia.
+Qed.
+
+Lemma wide_buf m before after a b :
+  0 <= m -> 0 <= before -> 0 <= after -> wide (m + Z.max (Z.max before after) 0) a b ->
+  wide m (addO a (- after)) (addO b before).
+Proof.
+  intros Hm Hb Ha ((W1 & W2 & W3) & A & B).
+  assert (La : forall z, addO a (- after) = Some z -> NEG_INF + m < z).
+  { intros z E. destruct a as [x|]; cbn [addO] in E; [|discriminate E]. injection E as <-.
+    specialize (A x eq_refl). lia. }
+  assert (Lb : forall z, addO b before = Some z -> z + m < POS_INF).
+  { intros z E. destruct b as [y|]; cbn [addO] in E; [|discriminate E]. injection E as <-.
+    specialize (B y eq_refl). lia. }
+  assert (Lo : bnd_lo (addO a (- after)) <= bnd_lo a) by (destruct a; cbn [addO bnd_lo]; lia).
+  assert (Hi : bnd_hi b <= bnd_hi (addO b before)) by (destruct b; cbn [addO bnd_hi]; lia).
+  split; [split; [|split]|split].
+  - intros z E. specialize (La z E). lia.
+  - intros z E. specialize (Lb z E). lia.
+  - lia.
+  - exact La.
+  - exact Lb.
+Qed.
+
+Theorem wide_wins env e : good2 env e -> forall a b, wide (margin e) a b -> wins e a b.
+Proof.
+  induction e as [evs| |es IH|es IH|s subs IHs IHsubs|s IHs|s f IHs|s x y IHs|s g IHs] using expr_ind';
+    intros Hg a b Hw; pose proof (proj1 Hw) as Hwin;
+    inversion Hg as [e0 Hgd|es0 Hall|s0 f0 Hs|s0 Hs|es0 Hne Hall Hdj|s0 subs0 Hs Hsubs Hdj
+                     |s0 bf af Hs Hb Ha Hsafe|s0 g0 Hs Hg0]; subst;
+    try (apply nobuf_wins; [eapply good_nobuf; eassumption|exact Hwin]).
+  - apply wins_union. split; [exact Hwin|]. apply Forall_forall. intros s Hs.
+    rewrite Forall_forall in IH, Hall. apply (IH s Hs (Hall s Hs)).
+    eapply wide_weaken; [exact Hw|]. cbn [margin]. apply (fold_max_in margin). exact Hs.
+  - apply wins_inter. split; [exact Hwin|]. apply Forall_forall. intros s Hs.
+    rewrite Forall_forall in IH, Hall. apply (IH s Hs (Hall s Hs)).
+    eapply wide_weaken; [exact Hw|]. cbn [margin]. apply (fold_max_in margin). exact Hs.
+  - apply wins_diff. split; [exact Hwin|]. split.
+    + apply (IHs Hs). eapply wide_weaken; [exact Hw|]. cbn [margin]. lia.
+    + apply Forall_forall. intros u Hu. rewrite Forall_forall in IHsubs, Hsubs.
+      apply (IHsubs u Hu (Hsubs u Hu)). eapply wide_weaken; [exact Hw|]. cbn [margin].
+      pose proof (fold_max_in margin subs u Hu). lia.
+  - cbn [wins]. split; [exact Hwin|]. apply (IHs Hs). exact Hw.
+  - cbn [wins]. split; [exact Hwin|]. apply (IHs Hs). exact Hw.
+  - apply wins_buf. split; [exact Hwin|]. apply (IHs Hs). cbn [margin] in Hw.
+    apply wide_buf; [apply margin_nonneg|exact Hb|exact Ha|exact Hw].
+  - cbn [wins]. split; [exact Hwin|]. apply (IHs Hs). exact Hw.
+Qed.
+
+Corollary C03_forward_wf2_margin env e a b :
+  good2 env e -> wide (margin e) (fst (norm_bounds a b)) (snd (norm_bounds a b)) ->
+  stream_wf (fst (norm_bounds a b)) (snd (norm_bounds a b)) false (slice env e a b false) = true.
+Proof. intros Hg Hw. apply C03_forward_wf2; [exact Hg|apply (wide_wins env); assumption]. Qed.
